@@ -64,22 +64,22 @@ theorem ops_spelled (cfg : Config) (s : St) (h : (safe cfg s && clean cfg s && e
 def good (cfg : Config) (s : St) : Bool := safe cfg s && clean cfg s && errTrue s
 
 theorem rd_ready_ok : ∀ s, Reach (sys cfgRdReady) s → good cfgRdReady s = true :=
-  safe_of_check _ { coded with M := 127, W := 176 } 400 _ (by decide +kernel)
+  safe_of_check _ { coded with M := 127, W := 192 } 400 _ (by decide +kernel)
 
 theorem rd_park_ok : ∀ s, Reach (sys cfgRdPark) s → good cfgRdPark s = true :=
-  safe_of_check _ { coded with M := 127, W := 176 } 400 _ (by decide +kernel)
+  safe_of_check _ { coded with M := 127, W := 192 } 400 _ (by decide +kernel)
 
 theorem rd_eagain_fault_ok : ∀ s, Reach (sys cfgRdEagainFault) s → good cfgRdEagainFault s = true :=
-  safe_of_check _ { coded with M := 127, W := 176 } 400 _ (by decide +kernel)
+  safe_of_check _ { coded with M := 127, W := 192 } 400 _ (by decide +kernel)
 
 theorem rd_short_ok : ∀ s, Reach (sys cfgRdShort) s → good cfgRdShort s = true :=
   safe_of_check _ { coded with M := 127 } 400 _ (by decide +kernel)
 
 theorem wr_ready_ok : ∀ s, Reach (sys cfgWrReady) s → good cfgWrReady s = true :=
-  safe_of_check _ { coded with M := 127, W := 176 } 400 _ (by decide +kernel)
+  safe_of_check _ { coded with M := 127, W := 192 } 400 _ (by decide +kernel)
 
 theorem wr_park_ok : ∀ s, Reach (sys cfgWrPark) s → good cfgWrPark s = true :=
-  safe_of_check _ { coded with M := 127, W := 176 } 400 _ (by decide +kernel)
+  safe_of_check _ { coded with M := 127, W := 192 } 400 _ (by decide +kernel)
 
 /-- non-vacuity: the parked write really parks (EAGAIN, epoll registration) and later completes
     with the 8 bytes after the environment drained the pipe. -/
